@@ -185,6 +185,10 @@ struct colvars_verif_access {
   static std::vector<colvar *> &colvars(colvarmodule *m) { return m->colvars; }
   static std::vector<colvarbias *> &biases(colvarmodule *m) { return m->biases; }
   static std::vector<std::shared_ptr<colvar::cvc>> &cvcs(colvar *c) { return c->cvcs; }
+  // dependency graph
+  static std::vector<colvardeps::feature_state> const &dep_states(colvardeps *o) { return o->feature_states; }
+  static std::vector<colvardeps *> const &dep_children(colvardeps *o) { return o->children; }
+  static std::vector<colvardeps *> const &dep_parents(colvardeps *o) { return o->parents; }
   // metadynamics (multiple-walker mirrors, grids, pending hills)
   static std::vector<colvarbias_meta *> &meta_replicas(colvarbias_meta *b) { return b->replicas; }
   static colvar_grid_scalar *meta_energy_grid(colvarbias_meta *b) { return b->hills_energy.get(); }
